@@ -5,6 +5,9 @@ set -u
 cd "$(dirname "$0")"
 export VERIF_DIR="$PWD"
 export GOFLAGS=-mod=mod GOPROXY=off GOSUMDB=off GOTOOLCHAIN=local CGO_ENABLED=1
+# the SDK keyring's secret-service back end probes the session bus in a package init(); without an
+# address it auto-launches a dbus-daemon per process that nobody reaps
+export DBUS_SESSION_BUS_ADDRESS="${DBUS_SESSION_BUS_ADDRESS:-unix:path=/nonexistent}"
 BIN="$VERIF_DIR/.bin/tsim"
 mkdir -p "$VERIF_DIR/.bin"
 build() {
